@@ -143,6 +143,8 @@ class SymGroupBy:
             return [(obj.name, obj.col)], True
         keynames = [k for k, _ in self.keycols] if self.key_in_frame else []
         sel = self.selection
+        if hasattr(sel, "tolist") and not isinstance(sel, str):
+            sel = list(sel)  # pd.Index of labels
         if sel is None:
             return [(k, c) for k, c in obj.cols if k not in keynames], False
         if isinstance(sel, (list, tuple)):
